@@ -60,6 +60,19 @@ fn dispatch_by_method() -> Result<(), String> {
     }
     if !log.borrow().is_empty() { return Err(format!("{d}: a handler was called: {:?}", log.borrow())); }
   }
+  // whatever error the handler itself returns - even a resolver error of an INNER resolver it delegates to - is a
+  // HandlerError of this resolver: the handler WAS called, so the outcome must not read "unsupported method"
+  {
+    let mut outer = R::new();
+    outer.attach_handler("wrap".to_owned(), |d: CoreDID| async move {
+      let inner = R::new();
+      inner.resolve(&d).await
+    });
+    match block_on(outer.resolve(&did("did:wrap:1"))) {
+      Ok(_) => return Err("delegating handler over an empty inner resolver succeeded".into()),
+      Err(e) => if !matches!(e.error_cause(), ErrorCause::HandlerError { .. }) { return Err(format!("error of a called handler reported as {}", <&'static str>::from(e.error_cause()))); },
+    }
+  }
   // a handler's failure is reported, a later attach for the same method replaces the handler
   if block_on(r.resolve(&did("did:foo:bad1"))).is_ok() { return Err("handler failure not reported".into()); }
   attach(&mut r, "foo", "foo-second", &log, delays.clone());
